@@ -9,6 +9,9 @@ NAMES = ["a", "b", "c", "x", "y"]
 FUNCS = ["f", "g", "h"]
 ATTRS = ["p", "q"]
 CONSTS = ["0", "1", "2", "10", "'s'", '"t"', "1.5", "True", "None", "b'k'", "2j", "...", "False", "1.0", "0", "1"]
+# string literals spelling ${name} for the wildcard names the pattern generator uses: bound code that looks like a
+# placeholder must arrive verbatim in a restructured module
+TEMPLATE_STRS = ["'${a}'", '"${x}!"', "'${w} ${a}'", "'${n1}'", '"${?v}"', "'${x}'", "'${w}'"]
 BINOPS = ["+", "-", "*", "/", "%", "**", "//", "|", "&", "<<"]
 CMPOPS = ["<", "==", "!=", ">=", "in", "not in", "is", "is not"]
 
@@ -27,8 +30,10 @@ class Gen:
         r = self.rng.random()
         if r < 0.55:
             return self.rng.choice(NAMES)
-        if r < 0.9:
+        if r < 0.84:
             return self.rng.choice(CONSTS)
+        if r < 0.90:
+            return self.rng.choice(TEMPLATE_STRS)
         return self.rng.choice(NAMES) + "." + self.rng.choice(ATTRS)
 
     def expr(self, d=0):
@@ -204,6 +209,12 @@ class Gen:
         out = []
         last = None
         for _ in range(n):
+            # a run of 3-6 equal or unifiable statements: chains of mutually overlapping windows of a
+            # multi-statement pattern
+            if rng.random() < 0.10:
+                out.extend(self.run_of_statements())
+                last = None
+                continue
             # repeat the previous simple statement now and then: windows of a statement pattern overlap
             if last is not None and rng.random() < 0.08:
                 out.extend(last)
@@ -219,6 +230,21 @@ class Gen:
             if rng.random() < 0.04:
                 out.append("# comment " + rng.choice(NAMES))
         return out
+
+    def run_of_statements(self):
+        rng = self.rng
+        n = rng.randint(3, 6)
+        style = rng.random()
+        if style < 0.4:                                   # identical statements
+            st = rng.choice(["%s.%s()" % (rng.choice(NAMES), rng.choice(ATTRS)),
+                             "%s(%s)" % (rng.choice(FUNCS), self.safe(self.expr(2))),
+                             "%s += 1" % rng.choice(NAMES), "pass"])
+            return [st] * n
+        if style < 0.75:                                  # same shape, one varying leaf
+            fn = rng.choice(FUNCS)
+            return ["%s(%s)" % (fn, self.atom()) for _ in range(n)]
+        tgt = rng.choice(NAMES)                           # same shape, two varying leaves
+        return ["%s = %s + %s" % (tgt, self.atom(), rng.choice(NAMES)) for _ in range(n)]
 
     def indent(self, lines):
         return [("    " + ln) if ln.strip() else ln for ln in lines]
